@@ -6,7 +6,8 @@
    every threshold table within the constants:
 
        Pick   thresholds t = (mss, ms, thr) in 1..MaxLim x 1..MaxLim x ThrLevels, stable, anti,
-              canloop (tracks_can_loop of the propagator), initial energy level E0 in 1..EMax
+              canloop (tracks_can_loop of the propagator), initial energy level E0 in 0..EMax
+              (0 = a positron born at rest: its steps have a zero limit, kind "stopped")
        Init   SimTrackView::operator=                      counter := 0
        Along  PropagationApplier (any kind) ; ElossApplier (any loss 0..E, pre-step energy decides
               `below`) ; stop override when the loss takes everything
@@ -26,17 +27,23 @@
                                 than max(mss, ms) consecutive steps
      CutOnlyAfterLoop           tracking-cut is selected by this path only on a looping step of
                                 a stable particle with a looping-capable propagator
+     CutWhenDue                 ... and always when such a step reaches the limit (unless the same
+                                step's loss stopped the particle)
      NoLoopNeverCounts          canloop = FALSE: the counter stays 0
      Ledger                     E + deposited + escaped (+ 2mc^2 while a positron exists)
                                 = initial energy (+ 2mc^2): the cut deposits what is left
 
    Variant (CONSTANT) seeds plausible wrong algorithms that MUST be refuted (vacuity guard):
-     "gt"        is_looping uses >  instead of >=                  -> BoundedLooping
+     "gt"        is_looping uses >  instead of >=                  -> CutWhenDue, BoundedLooping
      "eq"        is_looping uses == instead of >= (the counter can jump past the smaller limit
-                 when the energy falls below the threshold)         -> BoundedLooping
+                 when the energy falls below the threshold)         -> CutWhenDue, BoundedLooping
      "noreset"   update_looping(false) keeps the counter            -> CounterIsConsecutiveLoops
      "cutnodep"  tracking-cut kills without depositing              -> Ledger
-     "swap"      the two limits are exchanged (E < thr -> max_steps)-> BoundedLooping
+     "swap"      the two limits are exchanged (E < thr -> max_steps)-> CutWhenDue, CutOnlyAfterLoop
+   (configs LoopingMC_<variant>.cfg; TLC stops at the first violated invariant)
+
+   Constants: LoopingMC.cfg (quick) MaxLim 2, ThrLevels {0,2}, EMax 3, MaxLen 3: 222 713 states;
+   LoopingMC_thorough.cfg MaxLim 3, MaxLen 4: 2 927 803 states.
 
    Emit (an invariant with a side effect) prints one replay script per finished behaviour of a
    stable particle: thresholds + the sequence <<kind, energy level>>; harness/vlooping.cc
